@@ -294,14 +294,18 @@ func (x *Exec) wf(s string, t types.Type, st *State, depth int) string {
 			return And("(<= "+BigLit(lo)+" "+s+")", "(<= "+s+" "+BigLit(hi)+")")
 		}
 		if u.Info()&types.IsString != 0 {
-			return x.wfSlice(s, st)
+			return x.wfSlice(s, st, 1)
 		}
 		if u.Kind() == types.UnsafePointer {
 			return And("(<= 0 (p_reg "+s+"))", "(< (p_reg "+s+") "+st.nr+")")
 		}
 		return "true"
 	case *types.Slice:
-		return x.wfSlice(s, st)
+		sz := x.te.SizeOf(u.Elem())
+		if sz < 1 {
+			sz = 1
+		}
+		return x.wfSlice(s, st, sz)
 	case *types.Pointer:
 		return And("(<= 0 (p_reg "+s+"))", "(< (p_reg "+s+") "+st.nr+")", "(<= 0 (p_idx "+s+"))")
 	case *types.Interface:
@@ -331,11 +335,11 @@ func (x *Exec) wf(s string, t types.Type, st *State, depth int) string {
 
 const maxSliceElems = "281474976710656" // 2^48 (assumption A-mem)
 
-func (x *Exec) wfSlice(s string, st *State) string {
+func (x *Exec) wfSlice(s string, st *State, elemSize int64) string {
 	return And(
 		"(<= 0 (s_reg "+s+"))", "(< (s_reg "+s+") "+st.nr+")",
 		"(<= 0 (s_off "+s+"))", "(<= 0 (s_len "+s+"))", "(<= (s_len "+s+") (s_cap "+s+"))",
-		"(<= (+ (s_off "+s+") (s_cap "+s+")) "+maxSliceElems+")",
+		fmt.Sprintf("(<= (* (+ (s_off %s) (s_cap %s)) %d) %s)", s, s, elemSize, maxSliceElems),
 		"(=> (= (s_reg "+s+") 0) (= (s_cap "+s+") 0))")
 }
 
